@@ -156,7 +156,7 @@ def _run(spec, prop, tier, seed, replay, wd):
         docs, safes, _ = tid_info[tid]
         if spec["nontrivial"](docs):
             nontrivial.add(E.sha(docs))
-        if mv == "violated":
+        if mv == "violated" and pv != "violated":      # (both violated: the specification mirrors a defect of the library - reported below)
             path = E.write_replay(prop, docs, safes, {"verdict": list(rows[tid][:3]), "note": "MODEL violates the formula", "rels": _rels_of(t)})
             raise E.MachineryError(f"the specification violates the property formula on recorded history {tid} "
                                    f"(replay={path}): " + json.dumps([S.render_doc(d) for d in docs]))
